@@ -408,17 +408,31 @@ class Evaluator(object):
         return t.startswith('Err(') or bool(re.match(r'^errors::\w+Snafu::fail\(', t))
 
     def block_diverges(self, b):
-        if b.get('k') == 'Block':
-            if b.get('ty') == '!':
-                return True
-            if b.get('expr') is not None:
-                return b['expr'].get('ty') == '!'
-            if b['stmts']:
-                l = b['stmts'][-1]
-                if l['k'] in ('Semi', 'ExprStmt'):
-                    return l['e'].get('ty') == '!'
+        """The expression never completes normally (structurally: return / break / continue / a
+        never-typed call or macro at the end of every path through it)."""
+        if b is None:
             return False
-        return b.get('ty') == '!'
+        if b.get('ty') == '!':
+            return True
+        k = b.get('k')
+        if k in ('Ret', 'Break', 'Continue'):
+            return True
+        if k == 'MacroCall' and b.get('name') in ('unreachable', 'panic', 'todo', 'unimplemented'):
+            return True
+        if k == 'Block':
+            for st in b['stmts']:
+                if st['k'] in ('Semi', 'ExprStmt') and self.block_diverges(st['e']):
+                    return True
+                if st['k'] == 'Let' and st.get('init') is not None and st['init'].get('ty') == '!':
+                    return True
+            return b.get('expr') is not None and self.block_diverges(b['expr'])
+        if k == 'If':
+            return b.get('else') is not None and self.block_diverges(b['then']) and self.block_diverges(b['else'])
+        if k == 'Match' and b.get('src') == 'Normal':
+            return bool(b['arms']) and all(self.block_diverges(a['body']) for a in b['arms'])
+        if k in ('AddrOf', 'Unary', 'Cast', 'Try', 'DropTemps') and b.get('e') is not None:
+            return self.block_diverges(b['e'])
+        return False
 
     def cond_term(self, e, env):
         # side-effect free evaluation of a condition under env
